@@ -402,4 +402,205 @@ theorem reopen_QL {s : St} {q dup new : List Bytes} (h : QL s q dup new) (cfg' :
   | inl x => exact x
   | inr x => exact x.1
 
+/-! ### the kill: only the files survive, `New` reads the lagging metadata -/
+
+/-- depth-free abstraction: `s` behaves for every future operation like a healthy queue holding `q`;
+only `Depth()` (and the sync bookkeeping) may be off -/
+def QD (s : St) (q : List Bytes) : Prop := ∃ s0, E s0 s ∧ Q s0 q
+
+theorem QD_of_Q {s : St} {q : List Bytes} (h : Q s q) : QD s q := ⟨s, E.refl s, h⟩
+
+/-- the records the reader will find after the restart: the re-read ones first; the file the writer skips
+to is empty -/
+def recsAfter (s : St) (recs : Nat → List Bytes) (dup : List Bytes) : Nat → List Bytes :=
+  fun i => if i = s.rf then dup ++ recs s.rf else if i = s.wf + 1 then [] else recs i
+
+theorem qFrom_after {s : St} {pre : Bytes} {recs : Nat → List Bytes} (h : Rep s pre recs) (dup : List Bytes) :
+    qFrom (recsAfter s recs dup) s.rf (s.wf - s.rf + 1) = dup ++ absQ s recs := by
+  have hle := h.le
+  unfold absQ
+  show recsAfter s recs dup s.rf ++ qFrom (recsAfter s recs dup) (s.rf + 1) (s.wf - s.rf) =
+    dup ++ (recs s.rf ++ qFrom recs (s.rf + 1) (s.wf - s.rf))
+  rw [qFrom_congr (recsAfter s recs dup) recs (s.rf + 1) (s.wf - s.rf) (fun j h1 h2 => by
+    unfold recsAfter; rw [if_neg (by omega), if_neg (by omega)])]
+  unfold recsAfter
+  rw [if_pos rfl, List.append_assoc]
+
+/-- the state `retrieveMetaData` builds from the lagging metadata, with `depth` set right, is a healthy
+queue holding `dup ++ q` -/
+theorem crash_rep {s : St} {pre : Bytes} {recs : Nat → List Bytes} {m : Meta} {dup new : List Bytes}
+    (h : Rep s pre recs) (L : Lag s m dup new) (cfg' : Cfg) (hok : CfgOk cfg')
+    (hmin : cfg'.minMsgSize = s.cfg.minMsgSize) (hmax : cfg'.maxMsgSize = s.cfg.maxMsgSize)
+    (wf' wp' : Nat)
+    (hcase : (wf' = s.wf ∧ wp' = s.wp) ∨ (wf' = s.wf + 1 ∧ wp' = 0 ∧ s.fs.dat s.wf ≠ none)) :
+    ∃ pre0, Rep ({ cfg := cfg', fs := s.fs, depth := ((dup ++ absQ s recs).length : Int), rf := s.rf, rp := m.rp,
+                   wf := wf', wp := wp', nrf := s.rf, nrp := m.rp } : St) pre0 (recsAfter s recs dup) ∧
+      absQ ({ cfg := cfg', fs := s.fs, depth := ((dup ++ absQ s recs).length : Int), rf := s.rf, rp := m.rp,
+              wf := wf', wp := wp', nrf := s.rf, nrp := m.rp } : St) (recsAfter s recs dup) = dup ++ absQ s recs := by
+  obtain ⟨pre0, p1, p2⟩ := L.rp
+  rw [rep_pre h] at p1
+  have hle := h.le
+  have hq := qFrom_after h dup
+  have hvr : ∀ i, ∀ d ∈ recsAfter s recs dup i, ValidRec cfg' d := by
+    intro i d hd
+    have tr : ∀ x, ValidRec s.cfg x → ValidRec cfg' x := by
+      intro x hx; unfold ValidRec at hx ⊢; rw [hmin, hmax]; exact hx
+    unfold recsAfter at hd
+    by_cases e1 : i = s.rf
+    · rw [if_pos e1] at hd
+      simp only [List.mem_append] at hd
+      cases hd with
+      | inl a => exact tr d (L.vdup d a)
+      | inr a => exact tr d (h.vrec s.rf d a)
+    · rw [if_neg e1] at hd
+      by_cases e2 : i = s.wf + 1
+      · rw [if_pos e2] at hd; exact absurd hd (by simp)
+      · rw [if_neg e2] at hd; exact tr d (h.vrec i d hd)
+  have hcrf : s.fs.content s.rf = pre0 ++ enc (recsAfter s recs dup s.rf) := by
+    unfold recsAfter
+    rw [if_pos rfl, h.crf, p1, enc_append, List.append_assoc]
+  have hnext : s.fs.dat (s.wf + 1) = none := h.out _ (Or.inr (by omega))
+  refine ⟨pre0, ?_, ?_⟩
+  · cases hcase with
+    | inl hc =>
+      obtain ⟨c1, c2⟩ := hc
+      subst c1 c2
+      refine ⟨hok, rfl, hle, hvr, hcrf, p2, ?_, h.ex, h.wex, h.wp, h.out, ?_, Or.inl ⟨rfl, rfl⟩, ?_, ?_⟩
+      · intro i h1 h2
+        show s.fs.content i = enc (recsAfter s recs dup i)
+        replace h1 : s.rf < i := h1
+        replace h2 : i ≤ s.wf := h2
+        unfold recsAfter
+        rw [if_neg (by omega), if_neg (by omega)]
+        exact h.cmid i h1 h2
+      · show ((dup ++ absQ s recs).length : Int) = ((qFrom (recsAfter s recs dup) s.rf (s.wf - s.rf + 1)).length : Int)
+        rw [hq]
+      · intro ho; exact absurd ho (by simp)
+      · intro ho; exact absurd ho (by simp)
+    | inr hc =>
+      obtain ⟨c1, c2, c3⟩ := hc
+      subst c1 c2
+      have hq2 : qFrom (recsAfter s recs dup) s.rf (s.wf + 1 - s.rf + 1) = dup ++ absQ s recs := by
+        have e : s.wf + 1 - s.rf + 1 = (s.wf - s.rf + 1) + 1 := by omega
+        rw [e, qFrom_snoc, hq]
+        have e2 : s.rf + (s.wf - s.rf + 1) = s.wf + 1 := by omega
+        rw [e2]
+        unfold recsAfter
+        rw [if_neg (by omega), if_pos rfl, List.append_nil]
+      refine ⟨hok, rfl, by show s.rf ≤ s.wf + 1; omega, hvr, hcrf, p2, ?_, ?_, ⟨fun _ => rfl, fun _ => hnext⟩, ?_, ?_, ?_,
+        Or.inl ⟨rfl, rfl⟩, ?_, ?_⟩
+      · intro i h1 h2
+        show s.fs.content i = enc (recsAfter s recs dup i)
+        replace h1 : s.rf < i := h1
+        replace h2 : i ≤ s.wf + 1 := h2
+        unfold recsAfter
+        rw [if_neg (by omega)]
+        by_cases e : i = s.wf + 1
+        · rw [if_pos e, e, content_none hnext]; rfl
+        · rw [if_neg e]; exact h.cmid i h1 (by omega)
+      · intro i h1 h2
+        show s.fs.dat i ≠ none
+        replace h1 : s.rf ≤ i := h1
+        replace h2 : i < s.wf + 1 := h2
+        by_cases e : i = s.wf
+        · rw [e]; exact c3
+        · exact h.ex i h1 (by omega)
+      · show (0 : Nat) = (s.fs.content (s.wf + 1)).length
+        rw [content_none hnext]; rfl
+      · intro i hi
+        show s.fs.dat i = none
+        replace hi : i < s.rf ∨ s.wf + 1 < i := hi
+        exact h.out i (by omega)
+      · show ((dup ++ absQ s recs).length : Int) = ((qFrom (recsAfter s recs dup) s.rf (s.wf + 1 - s.rf + 1)).length : Int)
+        rw [hq2]
+      · intro ho; exact absurd ho (by simp)
+      · intro ho; exact absurd ho (by simp)
+  · unfold absQ
+    cases hcase with
+    | inl hc =>
+      obtain ⟨c1, c2⟩ := hc
+      subst c1 c2
+      exact hq
+    | inr hc =>
+      obtain ⟨c1, c2, c3⟩ := hc
+      subst c1 c2
+      show qFrom (recsAfter s recs dup) s.rf (s.wf + 1 - s.rf + 1) = dup ++ qFrom recs s.rf (s.wf - s.rf + 1)
+      have e : s.wf + 1 - s.rf + 1 = (s.wf - s.rf + 1) + 1 := by omega
+      rw [e, qFrom_snoc, hq]
+      have e2 : s.rf + (s.wf - s.rf + 1) = s.wf + 1 := by omega
+      rw [e2]
+      unfold recsAfter absQ
+      rw [if_neg (by omega), if_pos rfl, List.append_nil]
+
+/-- what `retrieveMetaData` computes from a lagging metadata file -/
+theorem retrieve_lag {s : St} {pre : Bytes} {recs : Nat → List Bytes} {m : Meta} {dup new : List Bytes}
+    (h : Rep s pre recs) (hmd : s.fs.md = some m) (L : Lag s m dup new) (cfg' : Cfg) :
+    ∃ wf' wp', ((wf' = s.wf ∧ wp' = s.wp) ∨ (wf' = s.wf + 1 ∧ wp' = 0 ∧ s.fs.dat s.wf ≠ none)) ∧
+      retrieve cfg' s.fs = { cfg := cfg', fs := s.fs, depth := m.depth, rf := s.rf, rp := m.rp, wf := wf', wp := wp',
+                             nrf := s.rf, nrp := m.rp } := by
+  unfold retrieve
+  rw [hmd]
+  simp only []
+  rw [L.wf, L.rf]
+  cases hd : s.fs.dat s.wf with
+  | none =>
+    simp only []
+    have hw : s.wp = 0 := h.wex.mp hd
+    have : m.wp = s.wp := by have := L.wp; omega
+    exact ⟨s.wf, s.wp, Or.inl ⟨rfl, rfl⟩, by rw [this]⟩
+  | some c =>
+    simp only []
+    by_cases hw : m.wp < c.length
+    · rw [if_pos hw]
+      exact ⟨s.wf + 1, 0, Or.inr ⟨rfl, rfl, by simp⟩, rfl⟩
+    · rw [if_neg hw]
+      have hc : s.wp = c.length := by rw [h.wp, content_some hd]
+      have : m.wp = s.wp := by have := L.wp; omega
+      exact ⟨s.wf, s.wp, Or.inl ⟨rfl, rfl⟩, by rw [this]⟩
+
+/-- THE HARD-KILL LEMMA: kill a queue at rest whose metadata file lags by `dup` / `new`, start a new
+process on the files: it behaves like a healthy queue holding `dup ++ q` -/
+theorem crash_QD {s : St} {q dup new : List Bytes} {m : Meta} (h : QL s q dup new) (hmd : s.fs.md = some m)
+    (cfg' : Cfg) (hok : CfgOk cfg') (hmin : cfg'.minMsgSize = s.cfg.minMsgSize) (hmax : cfg'.maxMsgSize = s.cfg.maxMsgSize) :
+    QD (openQ cfg' (crash s)) (dup ++ q) ∧ (retrieve cfg' (crash s)).depth = m.depth ∧
+      m.depth + (new.length : Int) = ((dup ++ q).length : Int) := by
+  obtain ⟨pre, recs, a, _, c, l⟩ := h
+  have L := l m hmd
+  obtain ⟨wf', wp', hcase, hr⟩ := retrieve_lag a hmd L cfg'
+  obtain ⟨pre0, r1, r2⟩ := crash_rep a L cfg' hok hmin hmax wf' wp' hcase
+  have hQ := Q_of_rep r1
+  rw [r2, c] at hQ
+  refine ⟨⟨_, ?_, hQ⟩, ?_, ?_⟩
+  · unfold openQ crash
+    apply E_settle
+    rw [hr]
+    exact ⟨m.depth, false, 0, s.fs.md, rfl⟩
+  · unfold crash; rw [hr]
+  · have := L.depth
+    rw [a.depth] at this
+    unfold absQ at c
+    rw [c] at this
+    simp only [List.length_append]
+    omega
+
+/-- without a metadata file the new process starts at file 0, position 0, depth 0 — whatever the files
+hold: nothing is offered to consumers -/
+theorem crash_nomd (fs : FS) (hmd : fs.md = none) (cfg' : Cfg) (hok : CfgOk cfg') :
+    openQ cfg' fs = { cfg := cfg', fs := fs } := by
+  have hr : retrieve cfg' fs = { cfg := cfg', fs := fs } := by
+    unfold retrieve; rw [hmd]
+  unfold openQ
+  rw [hr]
+  have hs : syncDue ({ cfg := cfg', fs := fs } : St) = { cfg := cfg', fs := fs } := by
+    unfold syncDue
+    rw [if_neg (by show ¬ ((0 : Nat) = cfg'.syncEvery ∨ false = true); have := hok.sync; simp; omega)]
+  have hstep : settleStep ({ cfg := cfg', fs := fs } : St) = (false, { cfg := cfg', fs := fs }) := by
+    unfold settleStep
+    rw [hs, if_neg (by simp [canRead])]
+  unfold settle
+  show settleN 3 _ = _
+  unfold settleN
+  rw [hstep]
+  simp
+
 end Nsq.Proofs.DiskQueue
